@@ -75,6 +75,7 @@ theorem pendOkW_append_slow {P : List Pend} {ns na : Nat} {rel : List Nat} {next
     | run a b => rw [hqk] at this; rw [this.1] at hqt; cases hqt
     | del j f => rw [hqk] at this; obtain ⟨n, hn, _⟩ := this; rw [hn] at hqt; cases hqt
     | cls j => rw [hqk] at this; obtain ⟨n, hn, _⟩ := this; rw [hn] at hqt; cases hqt
+    | upl a b c => rw [hqk] at this; rw [this.1] at hqt; cases hqt
   refine ⟨?_, ?_, ?_, ?_, ?_, ?_⟩
   · rw [List.map_append, List.nodup_append]
     refine ⟨h.tags, by simp, ?_⟩
@@ -96,6 +97,7 @@ theorem pendOkW_append_slow {P : List Pend} {ns na : Nat} {rel : List Nat} {next
       | run a b => rw [hqk] at this; exact ⟨this.1, this.2.1, by omega, this.2.2.2⟩
       | del j f => rw [hqk] at this; exact this
       | cls j => rw [hqk] at this; exact this
+      | upl a b c => rw [hqk] at this; exact this
     · simp at hq; subst hq
       refine ⟨rfl, by omega, Nat.le_refl _, ?_⟩
       intro hm; have := h.relLe _ hm; omega
@@ -247,7 +249,7 @@ theorem sim_post_ref {cfg : Cfg} {d d' : RState} {m : Mon} {o : Obs} (hs : Sim c
             have : ((some kind : Option PKind) != some PKind.notif) = (kind != PKind.notif) := by cases kind <;> rfl
             rw [this]
             cases hh : status.accepted2xx <;> simp_all)
-        · rw [hreq]; exact hlog
+        · rw [chkLogOp_eq (by intro n f h; cases h), hreq]; exact hlog
         · rcases hhdr with h | ⟨h, _, _⟩ <;> subst h <;> simp [chkNoId, hreq]
           cases ref <;> simp_all
         · rcases hhdr with h | ⟨h, h2, h3⟩
@@ -363,7 +365,7 @@ theorem sim_post_ref {cfg : Cfg} {d d' : RState} {m : Mon} {o : Obs} (hs : Sim c
             exact rel_pend hrel hr hc
           · rw [hreq]
             exact chkAnswer_admitted hs _ _ (by simp) hi hname hl _ (by simp) (by simp) (by simp [St.accepted2xx])
-          · rw [hreq]
+          · rw [chkLogOp_eq (by intro n f h; cases h), hreq]
             simp [chkLog, St.rejected, hs.stateful, hname, firstSome]
           · simp [chkNoId, hreq]
           · rfl
